@@ -47,3 +47,39 @@ void h_K_ifh_radionuclide(void)
   g_db.name = nondet_int(); g_db.energy = nondet_float(); g_db.branching_ratio = nondet_float(); g_db.half_life = nondet_float(); g_db.modality = nondet_int();
   K_ifh_radionuclide(s, nondet_bool());
 }
+
+/* ---- radionuclide: writer, key table, round trip ---- */
+#include "K_write_rn_info.c"
+#include "K_ifh_rn_keys.c"
+static void emit_zero(void) { for (int k = 0; k < KEY_COUNT; ++k) { g_emit_count[k] = 0; g_emit_value[k] = nondet_float(); g_bind[k] = nondet_int(); } g_emit_name = nondet_int(); }
+void h_K_write_rn_info(void) { struct RN* r; emit_zero(); K_write_rn_info(r); }
+void h_K_ifh_rn_keys(void) { emit_zero(); K_ifh_rn_keys(); }
+/* a nuclide that the data base does not know, with name, half life and branching ratio set: written, parsed (TRUSTED: the value
+   emitted under key k lands in the member bound to k; header defaults are -1 and the empty name) and post-processed, it comes
+   back with the same name, half life and branching ratio */
+void h_lemma_rn_roundtrip(void)
+{
+  struct RN w; struct IFH h;
+  w.name = nondet_int(); w.energy = 511.F; w.branching_ratio = nondet_float(); w.half_life = nondet_float(); w.modality = nondet_int();
+  __CPROVER_assume(w.name != NAME_EMPTY && w.name != NAME_UNKNOWN && w.half_life > 0 && w.branching_ratio > 0 && RN_NOT_NAN(w));
+  emit_zero();
+  K_write_rn_info(&w);
+  K_ifh_rn_keys();
+  /* the parser (trusted) */
+  h.radionuclide_name0 = NAME_EMPTY; h.isotope_name = NAME_EMPTY; h.radionuclide_half_life_0 = -1.F; h.radionuclide_branching_ratio_0 = -1.F; h.imaging_modality = w.modality;
+  for (int k = 1; k < KEY_COUNT; ++k)
+    if (g_emit_count[k] == 1)
+      {
+        if (g_bind[k] == MEMBER_radionuclide_name) h.radionuclide_name0 = g_emit_name;
+        if (g_bind[k] == MEMBER_radionuclide_half_life) h.radionuclide_half_life_0 = g_emit_value[k];
+        if (g_bind[k] == MEMBER_radionuclide_branching_ratio) h.radionuclide_branching_ratio_0 = g_emit_value[k];
+      }
+  g_db.name = w.name; g_db.energy = -1.F; g_db.branching_ratio = -1.F; g_db.half_life = -1.F; g_db.modality = w.modality; /* not in the data base */
+  K_ifh_radionuclide(&h, 0);
+  __CPROVER_assert(h.exam_radionuclide.name == w.name, "radionuclide name survives the round trip");
+  __CPROVER_assert(h.exam_radionuclide.half_life == w.half_life, "half life survives the round trip");
+  __CPROVER_assert(h.exam_radionuclide.branching_ratio == w.branching_ratio, "branching ratio survives the round trip");
+#ifdef LEMMA_CANARY
+  __CPROVER_assert(0, "vacuity canary");
+#endif
+}
